@@ -11,7 +11,7 @@
    fails on the pinned one).  All theorems are for tables of ANY size. *)
 From Coq Require Import ZArith List Bool.
 From VV Require Import Csv.CsvDefs Csv.CsvProofs Csv.IngestProofs Csv.TableProofs Csv.TextProofs
-  Csv.SniffProofs Csv.TopProofs.
+  Csv.SniffProofs Csv.TopProofs Csv.XrffProofs.
 Import ListNotations.
 Local Open Scope Z_scope.
 
@@ -245,6 +245,49 @@ Theorem C09_has_header_all_numeric_partial :
     sniff_has_header is_number text lines delim = Ok NO_HEADER.
 Proof. exact has_header_family_all_numeric_lemma. Qed.
 Print Assumptions C09_has_header_all_numeric_partial.
+
+(* ------------------------------------------------------------------ XRFF (the DOM is an oracle) *)
+(* read_xrff's use of ANY DOM: the output column is the attribute with class="yes", or
+   the LAST attribute when none has it; it becomes the first column (nominal/string
+   output -> numeric), the other attributes keep their order; two class="yes" attributes
+   are a data_format error.  Every instance that the filter keeps and that is wide
+   enough goes through the same rotation + read_record as a CSV record (to_example is
+   shared, see C09_variable_i_reads_column_i / TableProofs.to_example_spec). *)
+Theorem C09_read_xrff_output_column_last :
+  forall is_number stod stoi attrs insts flt (d : xattr),
+  attrs <> [] -> Forall (fun a => xa_class_yes a = false) attrs ->
+  read_xrff is_number stod stoi fixed_v {| x_attributes := Some attrs; x_instances := Some insts |} flt =
+  bind (xrff_instances is_number stod stoi fixed_v flt (length attrs - 1)%nat insts
+          {| columns := attr_column false (last attrs d) :: map (attr_column false) (removelast attrs);
+             classes := []; dataset := [] |})
+       (fun df => bind (is_valid df) (fun ok => Ok (df, if ok then length (dataset df) else 0%nat))).
+Proof. exact read_xrff_output_column_no_class_lemma. Qed.
+Print Assumptions C09_read_xrff_output_column_last.
+
+Theorem C09_read_xrff_output_column_class_yes :
+  forall is_number stod stoi pre a post insts flt,
+  Forall (fun a => xa_class_yes a = false) (pre ++ post) -> xa_class_yes a = true ->
+  read_xrff is_number stod stoi fixed_v {| x_attributes := Some (pre ++ a :: post); x_instances := Some insts |} flt =
+  bind (xrff_instances is_number stod stoi fixed_v flt (length pre) insts
+          {| columns := attr_column true a :: map (attr_column false) (pre ++ post); classes := []; dataset := [] |})
+       (fun df => bind (is_valid df) (fun ok => Ok (df, if ok then length (dataset df) else 0%nat))).
+Proof. exact read_xrff_output_column_one_class_lemma. Qed.
+Print Assumptions C09_read_xrff_output_column_class_yes.
+
+Theorem C09_read_xrff_instance_step :
+  forall is_number stod stoi flt k rcd0 rcd rest df, flt rcd0 = Some rcd -> (k < length rcd)%nat ->
+  xrff_instances is_number stod stoi fixed_v flt k (rcd0 :: rest) df =
+  bind (read_record is_number stod stoi df (arrange (Some k) rcd) false)
+       (fun df' => xrff_instances is_number stod stoi fixed_v flt k rest df').
+Proof. exact xrff_instance_step_lemma. Qed.
+Print Assumptions C09_read_xrff_instance_step.
+
+Theorem C09_read_xrff_two_classes :
+  forall l1 a l2 b l3, xa_class_yes a = true -> xa_class_yes b = true ->
+  Forall (fun x => xa_class_yes x = false) l1 -> Forall (fun x => xa_class_yes x = false) l2 ->
+  xrff_attrs (l1 ++ a :: l2 ++ b :: l3) 0%nat 0%nat 0%nat [] = Exn E_data_format.
+Proof. exact xrff_attrs_two_classes_lemma. Qed.
+Print Assumptions C09_read_xrff_two_classes.
 
 (* ------------------------------------------------------------------ non-vacuity *)
 (* a record with an embedded delimiter, doubled quotes and leading/trailing blanks *)
